@@ -185,3 +185,11 @@ class class_memo_ok:
         if cls._instance is None:
             cls._instance = super().__new__(cls)
         return cls._instance
+
+
+def nonnull_invariant_bad(item_type):
+    return is_leaf_type(get_named_type(item_type)) and not is_list_type(item_type)
+
+
+def nonnull_invariant_ok(item_type):
+    return is_leaf_type(get_named_type(item_type)) and not is_list_type(get_nullable_type(item_type))
